@@ -46,6 +46,27 @@ DESC = {
     "C19/m1": ("buffer pickles trimmed at insert_idx instead of current_len", "save of a full or wrapped buffer"),
     "C19/m2": ("load_pickle caches the unpickled state per file name", "two loads of one file name in a process, re-save or training in between"),
     "C20/m1": ("OrbaxCheckpointer cadence: `step - last_step > interval`", "a record exactly one interval after the previous one"),
+    # ---- second round
+    "C01/r2m1": ("a2c.collect_trajectories: `obs = next_obs` moved to the top of the loop, the returned observation is one step old", "two consecutive rollouts (train_a2c)"),
+    "C01/r2m2": ("ReplayBuffer.add_sample re-allocates its arrays whenever insert_idx == 0", "more steps than the buffer capacity (wrap)"),
+    "C02/r2m1": ("MultiTaskReplayBuffer.sample_batch selects the drawn task as a side effect", "select, sample from another task, add without re-selecting"),
+    "C02/r2m2": ("LAP.__init__ no longer forwards `dtypes`", "LAP / PER constructed with custom dtypes"),
+    "C03/r2m1": ("sac_loss: entropy term added outside the (1 - terminated) factor", "a terminated transition and alpha != 0"),
+    "C03/r2m2": ("td3_lap_loss goes through a shared helper and omits min_priority (Huber delta fixed at 1)", "min_priority != 1"),
+    "C04/r2m1": ("SubtrajectoryReplayBuffer.add_sample: past_idx range from current_len instead of episode_timesteps", "a terminated episode shorter than the horizon after earlier data"),
+    "C04/r2m2": ("PriorityBuffer.prioritized_sampling masks in place", "prioritized subtrajectory buffer, sample / add interleaved beyond a wrap"),
+    "C05/r2m1": ("train_value_function as nnx.scan with the value function broadcast (mutations dropped)", "value_gradient_steps >= 2"),
+    "C05/r2m2": ("train_ddpg builds policy_target with nnx.merge(*nnx.split(policy)) (shares the Params)", "train_ddpg creating its own target, one actor update"),
+    "C06/r2m1": ("TD7 checkpoint embedding copied from the live embedding, not from the fixed embedding", "use_checkpoints, second checkpoint update off a target-delay multiple"),
+    "C06/r2m2": ("SAC applies the soft update target_network_delay times per update point", "target_network_delay > 1, tau < 1"),
+    "C07/r2m1": ("model_based_encoder_loss: termination mask no longer cumulative (as C03/m1, delivered for C07)", "horizon >= 3, termination followed by non-terminated steps"),
+    "C07/r2m2": ("discounted_reward_to_go vectorised with a division by gamma^t", "gamma = 0 (or underflow of gamma^t)"),
+    "C08/r2m1": ("LAP.reset_max_priority passes insert_idx instead of current_len", "wrapped buffer with non-uniform priorities"),
+    "C08/r2m2": ("importance weights normalised by the smallest stored priority's weight", "batch missing the minimum-priority slot, beta > 0"),
+    "C09/r2m1": ("MultiTaskReplayBuffer.active_buffers becomes a set of buffer objects (ordered by address)", "multi-task scheduler with two active tasks"),
+    "C09/r2m2": ("LAP.add_sample initialises the priority after the insert index advanced (slot 0 stays uninitialised)", "a LAP-based routine before its buffer wraps; uninitialised memory differing between runs"),
+    "C10/r2m1": ("PETS planner bounds built with repeat().reshape(): dimensions mixed over the plan", "two action dimensions with different bounds"),
+    "C10/r2m2": ("make_sample_actions caches the jitted sampler keyed on shape / dtype / noise only", "a second sampler in the process for another box of the same shape"),
     "C20/m2": ("record_stat: `episode = episode or counter`", "explicit episode=0 / step=0 after the counters moved"),
 }
 
